@@ -43,7 +43,15 @@ func (sc *sliceContainers) Put(key uint64, c *Container) {
 	} else {
 		sc.containers[i] = c
 	}
+	sc.refreshLast(key, c)
+}
 
+// refreshLast keeps the last* cache used by GetOrCreate pointing at the
+// container now stored under key.
+func (sc *sliceContainers) refreshLast(key uint64, c *Container) {
+	if key == sc.lastKey && sc.lastContainer != nil {
+		sc.lastContainer = c
+	}
 }
 
 func (sc *sliceContainers) PutContainerValues(key uint64, typ byte, n int, mapped bool) {
@@ -65,6 +73,7 @@ func (sc *sliceContainers) PutContainerValues(key uint64, typ byte, n int, mappe
 		c.setN(int32(n))
 		c.setMapped(mapped)
 		sc.containers[i] = c
+		sc.refreshLast(key, c)
 	}
 
 }
@@ -206,6 +215,7 @@ func (sc *sliceContainers) Update(key uint64, fn func(*Container, bool) (*Contai
 		nc, write = fn(sc.containers[i], true)
 		if write {
 			sc.containers[i] = nc
+			sc.refreshLast(key, nc)
 		}
 	} else {
 		nc, write = fn(nil, false)
@@ -226,6 +236,7 @@ func (sc *sliceContainers) UpdateEvery(fn func(uint64, *Container, bool) (*Conta
 		nc, write := fn(sc.keys[i], c, true)
 		if write {
 			sc.containers[i] = nc
+			sc.refreshLast(sc.keys[i], nc)
 		}
 	}
 }
